@@ -537,8 +537,8 @@ def driver_rules(scenario, calls, rows):
     """Oracles taken from the statements alone (nothing recorded), evaluated on the whole run, also behind error items.
     C13: every error the driver returned from a call reaches the caller as a driver-error item, in call order, carrying that
     very value (the replay driver's error value is the number of the failing call).
-    C02: every driver call is accounted for by the constructor, a yielded row or an error item of the row whose call was made:
-    calls = 1 + rows + driver-error items + rows that became an error after their call (answer layout, virtual signal)."""
+    C02: every driver call is accounted for by the constructor, a yielded row or an error item:
+    1 + rows + driver-error items <= calls <= 1 + rows + all error items."""
     if not isinstance(calls, list) or not isinstance(rows, list) or not calls:
         return []
     head = scenario.split("\nprogram\n", 1)[0].split("\n")
@@ -558,11 +558,13 @@ def driver_rules(scenario, calls, rows):
         return []
     if seen != failing:
         bad.append(f"the driver returned an error from calls {failing} but the caller was given the driver errors {seen} (calls made: {made})")
-    if not any(l.startswith("declare") for l in scenario.split("\nprogram\n", 1)[-1].replace("\r", "").split("\n")):
-        ok_rows = sum(1 for r_ in rows if not r_.startswith("ERR"))
-        after_call = sum(1 for r_ in rows if r_.startswith("ERR") and ("Driver(" in r_ or "WrongOutput" in r_ or "WrongNumberOfOutputs" in r_ or "MissingOutputs" in r_))
-        if made != 1 + ok_rows + after_call:
-            bad.append(f"{made} driver calls for {ok_rows} rows and {after_call} error items that follow a call (constructor included)")
+    # C02, without looking at the wording of (crate-private) error kinds: every yielded row and every driver-error item stands for
+    # exactly one call, every other error item for at most one (an evaluation error precedes the call, a layout error follows it)
+    ok_rows = sum(1 for r_ in rows if not r_.startswith("ERR"))
+    drv = sum(1 for r_ in rows if r_.startswith("ERR Driver("))
+    errs = sum(1 for r_ in rows if r_.startswith("ERR"))
+    if not (1 + ok_rows + drv <= made <= 1 + ok_rows + errs):
+        bad.append(f"{made} driver calls (constructor included) for {ok_rows} rows, {drv} driver-error items and {errs - drv} other error items")
     return bad
 
 
@@ -630,7 +632,8 @@ def run_cases(cases, tag):
                     raw = json.loads(l)
                     d = norm(raw)
                     d["_raw_calls"] = raw.get("calls")
-                    d["_raw_rows"] = raw.get("rows")
+                    d["_raw_rows"] = (raw.get("rows") or []) + (["ERR " + str(raw.get("message"))] if raw.get("outcome") == "error-item" and not any(
+                        str(x).startswith("ERR") for x in (raw.get("rows") or [])) else []) if isinstance(raw.get("rows"), list) else raw.get("rows")
                     outs.append(d)
                 except Exception:
                     outs.append(dict(stage="?", outcome="garbled"))
